@@ -8,6 +8,7 @@ import (
 	"errors"
 	"fmt"
 	"net"
+	"pgregory.net/rapid"
 	"runtime"
 	"sort"
 	"strings"
@@ -91,6 +92,8 @@ type CloseStep struct {
 
 // Plan is one generated case.
 type Plan struct {
+	// ChanEdge: the gateway assigns the channels 0, 255, 0, 1, 254, ... instead of numbers from the middle of the range
+	ChanEdge bool          `json:"chan_edge,omitempty"`
 	Cfg      Cfg           `json:"cfg"`
 	Conn     []Fate        `json:"conn,omitempty"` // per connect request emitted
 	Hb       []Fate        `json:"hb,omitempty"`   // per connection-state request emitted
@@ -478,6 +481,10 @@ func (s *Sim) onSend(f *common.OutFrame) error {
 		if ch == 0 && ft.Act == "ok" {
 			s.nextChan++
 			ch = 1 + (s.nextChan*37)%250
+			if p.ChanEdge {
+				// the ends of the channel octet's range: 0 is a channel like any other in a successful response
+				ch = []int{0, 255, 0, 1, 254, 255, 0}[(s.nextChan-1)%7]
+			}
 		}
 		if ch < 0 && ft.Act == "ok" {
 			// the gateway hands out the channel the client had before (real gateways commonly do)
@@ -609,6 +616,10 @@ func (s *Sim) gwStep(g GwStep) {
 			// the late answer to a repeated connect request: the connection it "assigns" is the one already running
 			// (or a foreign one); the gateway keeps counting, and so must the client
 			svc = &knxnet.ConnRes{Channel: uint8(ch), Status: knxnet.NoError, Control: knxnet.HostInfo{Protocol: knxnet.UDP4}}
+		case "ack-stray":
+			// an acknowledgement nobody waits for (the second answer to a repeated request, one that arrives after its
+			// Send gave up): it concerns the sender's side only, the receiver's side goes on as before
+			svc = &knxnet.TunnelRes{Channel: uint8(ch), SeqNumber: uint8(g.Abs), Status: knxnet.ErrCode(g.Status)}
 		case "junk":
 			svc = &knxnet.RoutingInd{Payload: indMsg(g.Tag)}
 		}
@@ -735,6 +746,7 @@ func handoffPending() bool {
 
 // Result is what the executor hands to the oracles besides the trace.
 type Result struct {
+	Untaken int // frames injected that the client had not taken from its socket when the cleanup began
 	ConnErr       string
 	Events        []Ev
 	InboundClosed bool // observed by the consumer or the final drain
@@ -885,6 +897,11 @@ func (s *Sim) Run() *Result {
 		}
 		s.Tr.add(Ev{K: "note", Note: "application drained Inbound"})
 	}
+	// frames the gateway sent that the client has not taken from its socket although everything has settled (fake
+	// clock only, where "settled" is conclusive)
+	if s.Bubble {
+		res.Untaken = s.Sock.Untaken()
+	}
 	// cleanup: close the tunnel (idempotent), drain what the application has not read, stop timers
 	s.Tr.add(Ev{K: "note", Note: "cleanup"})
 	closeDone := make(chan struct{})
@@ -961,4 +978,12 @@ func (s *Sim) finish() (receiverEnded bool) {
 	}
 	s.timers.Wait()
 	return receiverEnded
+}
+
+// withEdgeChannels lets a fifth of the plans run on the channels 0 and 255.
+func withEdgeChannels(rt *rapid.T, p *Plan) *Plan {
+	if rapid.IntRange(0, 4).Draw(rt, "edge-channels") == 0 {
+		p.ChanEdge = true
+	}
+	return p
 }
